@@ -31,6 +31,7 @@ type c15Scenario struct {
 	Interim      bool // paced stdin, interval 1 => several interim writes before the final one
 	Existing     int  // number of earlier complete results already at the outfile path (non-append: 0/1; append: runs before)
 	FinalDelayMs int  // extra delay before the input ends (moves the final write relative to the interim ticks)
+	StaleTmp     bool // a longer <outfile>.tmp (and .query.tmp) is left over from an earlier, killed run
 }
 
 func c15Line(g int, v int) string {
@@ -241,18 +242,20 @@ func c15(r *vlib.Run) int {
 		"runs. distinct = distinct (scenario, kill point); non-trivial = kill point at or after the first write to the outfile.")
 	r.Assume("a kill inside a single write(2) of a few bytes is not separately reachable; in append mode a torn last record is not judged")
 	scs := []c15Scenario{
-		{"final-only-3", 3, false, false, 0, 0},
-		{"final-only-1-over-existing", 1, false, false, 1, 0},
-		{"final-only-200", 200, false, false, 0, 0},
-		{"interim-3-over-existing", 3, false, true, 1, 0},
-		{"interim-200", 200, false, true, 0, 0},
-		{"append-first-3", 3, true, false, 0, 0},
-		{"append-second-3", 3, true, false, 1, 0},
-		{"append-third-interim-3", 3, true, true, 2, 0},
+		{"final-only-3", 3, false, false, 0, 0, false},
+		{"final-only-1-over-existing", 1, false, false, 1, 0, false},
+		{"final-only-200", 200, false, false, 0, 0, false},
+		{"interim-3-over-existing", 3, false, true, 1, 0, false},
+		{"interim-200", 200, false, true, 0, 0, false},
+		{"append-first-3", 3, true, false, 0, 0, false},
+		{"append-second-3", 3, true, false, 1, 0, false},
+		{"append-third-interim-3", 3, true, true, 2, 0, false},
 	}
+	scs = append(scs, c15Scenario{Name: "final-only-3-stale-tmp", Rows: 3, StaleTmp: true},
+		c15Scenario{Name: "interim-3-over-existing-stale-tmp", Rows: 3, Interim: true, Existing: 1, StaleTmp: true})
 	if r.Thorough() {
-		scs = append(scs, c15Scenario{"interim-200-over-existing", 200, false, true, 1, 0}, c15Scenario{"append-second-200", 200, true, false, 1, 0},
-			c15Scenario{"final-only-3-over-existing", 3, false, false, 1, 0}, c15Scenario{"append-first-interim-1", 1, true, true, 0, 0})
+		scs = append(scs, c15Scenario{"interim-200-over-existing", 200, false, true, 1, 0, false}, c15Scenario{"append-second-200", 200, true, false, 1, 0, false},
+			c15Scenario{"final-only-3-over-existing", 3, false, false, 1, 0, false}, c15Scenario{"append-first-interim-1", 1, true, true, 0, 0, false})
 	}
 	maxPoints := r.N(40, 100000)
 	vlib.Parallel(len(scs), 8, func(si int) {
@@ -322,6 +325,15 @@ func c15Prepare(r *vlib.Run, dir string, sc c15Scenario) []byte {
 	for e := 0; e < sc.Existing; e++ {
 		pre := c15Scenario{Rows: sc.Rows, Append: sc.Append}
 		c15Run(r, dir, pre, 100+e, "", nil, nil)
+	}
+	if sc.StaleTmp {
+		var sb strings.Builder
+		sb.WriteString("g,count($line),sum(v)\n")
+		for k := 0; k < 700; k++ {
+			fmt.Fprintf(&sb, "stale%04d,9,99.000000\n", k)
+		}
+		os.WriteFile(filepath.Join(dir, "result.csv.tmp"), []byte(sb.String()), 0644)
+		os.WriteFile(filepath.Join(dir, "result.csv.query.tmp"), []byte(strings.Repeat("stale query text ", 40)), 0644)
 	}
 	b, _ := os.ReadFile(filepath.Join(dir, "result.csv"))
 	return b
